@@ -14,6 +14,7 @@ package control
 // Streams: c02 (main), c02f6 (replay of the pname('') / unknown-process witness).
 
 import (
+	"github.com/daeuniverse/dae/common/assets"
 	"encoding/hex"
 	"fmt"
 	"net/netip"
@@ -320,11 +321,9 @@ func c02Build(log *logrus.Logger, text string, name2id map[string]uint8) (b *Rou
 		if err != nil {
 			return "err:config:" + err.Error()
 		}
+		// NewControlPlane's optimizer chain, regenerated from control_plane.go (translators/optchain)
 		program, err := routing.NewNormalizedProgram(conf.Routing.Rules, conf.Routing.Fallback,
-			&routing.AliasOptimizer{},
-			&routing.MergeAndSortRulesOptimizer{},
-			&routing.DeduplicateParamsOptimizer{},
-		)
+			c01ProductionOptimizers(log, assets.NewLocationFinder(nil))...)
 		if err != nil {
 			return "err:optimizers:" + err.Error()
 		}
